@@ -7,10 +7,10 @@ Import ListNotations.
 Definition with_return_input (c : config) : config :=
   mkConfig (cfg_schema c) (cfg_convert c) (cfg_ignored_fields c) (cfg_ignore_filter c) true (cfg_version_order c).
 
-Lemma add_back_rounds_rio : forall fuel c mav vs n m p,
-  add_back_rounds fuel (with_return_input c) mav vs n m p = add_back_rounds fuel c mav vs n m p.
+Lemma add_back_rounds_rio : forall fuel c mav vs n m p prev,
+  add_back_rounds fuel (with_return_input c) mav vs n m p prev = add_back_rounds fuel c mav vs n m p prev.
 Proof.
-  induction fuel as [|fuel IH]; intros c mav vs n m p; [reflexivity|].
+  induction fuel as [|fuel IH]; intros c mav vs n m p prev; [reflexivity|].
   simpl.
   change (add_back_round (with_return_input c) mav vs n m p) with (add_back_round c mav vs n m p).
   destruct (add_back_round c mav vs n m p) as [[[[m' p'] ch] n']|e]; [|reflexivity].
